@@ -2,6 +2,7 @@ import ProductMD.Model.Ini
 import ProductMD.Model.Customs
 import ProductMD.Generated.Tables
 import ProductMD.Generated.TreeInfoGeneral
+import ProductMD.Generated.Checksums
 /-!
 Model of `productmd/treeinfo.py` for the CURRENT format: the writer (`TreeInfo.serialize`, every section class,
 the legacy `[general]` mirror) and the reader for header versions > 0.3 (the `deserialize_1_0` branches).
@@ -522,7 +523,9 @@ def deTops (g : Gate) (d : Ini) : Except Err (List Variant) :=
 
 def checksumOf (value : Str) : Except Err (Str × Str) :=
   if !value.contains ':' then
-    if value.length == 32 then .ok ("md5".toList, value)
+    -- `if not all(c in string.hexdigits for c in value): raise ValueError` (F36 fix; flag and digits from the source)
+    if Gen.legacyHexGuard && !(value.all fun c => Gen.legacyHexDigits.contains c) then .error .valueError
+    else if value.length == 32 then .ok ("md5".toList, value)
     else if value.length == 40 then .ok ("sha1".toList, value)
     else if value.length == 64 then .ok ("sha256".toList, value)
     else .error .valueError
